@@ -54,7 +54,7 @@ def scripted(ctx, binp, wd, reasons):
     return stats, bad_all
 
 
-def real_run(ctx, binp, wd, what, n, nproc=8, maxlen=9000):
+def real_run(ctx, binp, wd, what, n, nproc=8, maxlen=9000, enum_stride=0):
     """Run the real-decoder driver in nproc processes, concatenate the traces, validate with TLC.
     Returns (stats, bad list with events)."""
     per = max(1, n // nproc)
@@ -63,6 +63,9 @@ def real_run(ctx, binp, wd, what, n, nproc=8, maxlen=9000):
         tp = os.path.join(wd, "real-%d.ndjson" % k)
         cmd = [binp, "-mode", "real", "-n", str(per), "-seed", str(ctx.seed * 1000 + k), "-what", what,
                "-maxlen", str(maxlen), "-trace", tp]
+        if enum_stride:
+            # the enumerated trailing-length cases (layout inferred from the pristine fixtures), dealt to the processes
+            cmd += ["-enum", "%d/%d/%d" % (k, nproc, enum_stride)]
         procs.append((k, tp, subprocess.Popen(cmd, env=vlib.goenv(), stdout=subprocess.PIPE, stderr=subprocess.PIPE, text=True)))
     total_ev = 0
     crashes = []
